@@ -92,8 +92,16 @@ def cast_table() -> dict:
                                  ("d", "date"), ("dt", "datetime")], rows=rows)
 
 
+def tall_table() -> dict:
+    """index 12: a tall table (> 100 rows) whose column `a` starts with a null prefix longer than 100 rows (C01's 'tall' inputs)"""
+    rows = []
+    for r in range(130):
+        rows.append([r + 1, None if r < 101 else (r * 7) % 11 - 3, (r * 5) % 9 - 4, [1, 2, None, 3][r % 4], None if r < 105 else (r % 2 == 0)])
+    return dict(name="tt", cols=[("rid", "int"), ("a", "int"), ("b", "int"), ("g", "int"), ("p", "bool")], rows=rows)
+
+
 def all_sources(seed: int) -> list[dict]:
-    return FIXED + seeded(seed) + EXTRA + [value_table(), string_table(), cast_table()]
+    return FIXED + seeded(seed) + EXTRA + [value_table(), string_table(), cast_table(), tall_table()]
 
 
 def col_id(src_index: int, col_index: int) -> int:
